@@ -30,7 +30,7 @@ def run_passes(rep, binary, passes, total_budget_s):
             rep.engine_errors.append(str(e))
             break
         s = {"label": ps.get("label") or ps["harness"], "cfg": ps.get("cfg"), "preemption_bound": ps.get("bound", -1),
-             "reduction": "sleep sets (unbounded preemptions)" if por else "happens-before state cache",
+             "reduction": "dynamic partial-order reduction + sleep sets (unbounded preemptions)" if por else "happens-before state cache",
              "executions": r["executions"], "executions_sleep_set_blocked": r.get("sleep_blocked", 0), "transitions": r["transitions"],
              "states": r["states"], "cache_hits": r.get("cache_hits", 0), "executions_cut_early_by_cache": r.get("cut_early", 0), "shard_mode": r.get("shard_mode"), "max_depth": r["max_depth"], "max_threads": r["max_threads"],
              "distinct_outcomes": r["n_outcomes"], "exhaustive": r["exhaustive"], "wall_s": round(r["wall_s"], 1),
